@@ -1,8 +1,9 @@
 """C04 (see DESIGN.md section 6)."""
 from vlib.framework import PUnit, LUnit, BUnit
 from bounded import b_coords as B
+from contracts import backmap as BM
 
-P_UNITS = []
+P_UNITS = [PUnit("backmap-only-flagged-residues", BM.CONTRACTS, BM.REG)]
 
 
 def build(tier, seed):
